@@ -33,6 +33,33 @@ def order_table(tr):
     return t
 
 
+def jumped_over(arr, t0, tr, sym, o, c0, c1):
+    """in one of the minutes c0..c1-1 the O-L-H-C / O-H-L-C path reaches the order's price strictly BEFORE the place
+    where another order was filled in that minute (the fills of the minute were not made in path order)"""
+    for j in range(c0, c1):
+        op, c, h, l = (float(arr[j][x]) for x in (1, 2, 3, 4))
+        if j > 0:
+            pc = float(arr[j - 1][2])
+            if pc < op:
+                op, l = pc, min(pc, l)
+            elif pc > op:
+                op, h = pc, max(pc, h)
+        path = path_points(op, h, l, c)
+
+        def dist(ps):
+            seg, cur = ps
+            return sum(abs(path[i + 1] - path[i]) for i in range(seg)) + abs(cur - path[seg])
+        reach = advance(path, (0, path[0]), float(o['price']))
+        if reach is None:
+            continue
+        for e in tr.events:
+            if e[0] == 'FILL' and e[3] == sym and (int(e[2]) - M - t0) // M == j and e[5] != 'MARKET':
+                at = advance(path, (0, path[0]), float(e[7]))
+                if at is not None and dist(reach) < dist(at) - 1e-12:
+                    return True
+    return False
+
+
 # ------------------------------------------------------------------------------------------ C02
 def c02_violations(sess, cands, tr, step, aborted=False):
     """fills happen exactly when and where the price reaches the order (step = minutes per matching unit:
@@ -56,6 +83,8 @@ def c02_violations(sess, cands, tr, step, aborted=False):
                 del pending[k]
             elif e[0] == 'FILL' and e[5] != 'MARKET' and pending:
                 m = next(iter(pending))
+                if pending[m] is not None and abs(float(e[7]) - pending[m]) <= 1e-9 * max(1.0, abs(pending[m])):
+                    continue          # a resting order at the very price the path stands at: a tie at one instant
                 at_path = pending[m] is not None and abs(float(orders[m]['price']) - pending[m]) <= 1e-9 * max(1.0, abs(pending[m]))
                 out.append(('market-order-overtaken', m, dict(orders[m], overtaken_by=dict(orders[k], ordinal=k),
                                                               path_position=pending[m], market_priced_at_path_position=at_path)))
@@ -122,7 +151,8 @@ def c02_violations(sess, cands, tr, step, aborted=False):
                             hi = max(hi, pc)
                 if lo <= o['price'] <= hi:
                     gap_only = all(not (float(arr[x][4]) <= o['price'] <= float(arr[x][3])) for x in range(c0, c1))
-                    out.append(('missed-fill', k, dict(o, unit=[c0, c1], range=[lo, hi], in_gap_only=gap_only)))
+                    out.append(('missed-fill', k, dict(o, unit=[c0, c1], range=[lo, hi], in_gap_only=gap_only,
+                                                      jumped_over_by_out_of_order_fill=jumped_over(arr, t0, tr, sym, o, c0, c1))))
                     break
     return out
 
